@@ -79,12 +79,15 @@ CLAIMS = {
              "console::colors_enabled* are stubbed; rendering loop bounded to width <= 6 (index arithmetic checked up to 65535).",
         ref="4/C14"),
     "C19": dict(
-        technique=K,
+        technique=K + "; unit discipline of the row accounting outside draw_to_term by MIR def-chain analysis with native confirmation",
         text="Same inductive draw_to_term step as C01, for frames whose bar lines do NOT all fit into the terminal height and for lines of 0..=2W columns "
              "(exact multiples of W included): painting stops at the first bar that does not fit, last_line_count <= H, the accounted rows end at the cursor "
              "and lie inside the visible window, no row of the old frame survives, and the post-state satisfies the invariant again (so the next draw erases "
-             "the region completely and omitted bars are painted as soon as they fit, the painted prefix being a function of the current lines only).",
-        note="Abstract screen model; W <= 4, H <= 3, <= 3 lines; measure_text_width = byte length; terminals larger than the bound are outside the claim.",
+             "the region completely and omitted bars are painted as soon as they fit, the painted prefix being a function of the current lines only). "
+             "MultiState::mark_zombie counts the rows a reaped head bar keeps on screen in WRAPPED rows (real visual_line_count, line of 1..=9 columns on a "
+             "terminal of width 4); engine M: no VisualLines value anywhere in the library is built from a line count.",
+        note="Abstract screen model; W <= 4, H <= 3, <= 3 lines; measure_text_width = byte length; terminals larger than the bound are outside the claim; the "
+             "zombie rows counted inside MultiState::draw are covered for one member only (C02).",
         ref="4/C19"),
     "C02": dict(
         technique=K,
@@ -126,10 +129,10 @@ CLAIMS = {
     "C06": dict(
         technique="MIR call-site analysis + path-wise symbolic execution of ProgressDrawTarget::drawable with SMT queries (z3 + cvc5); state equivalence by " + K,
         engine="mirsmt",
-        text="Engine M shows for the whole library that terminal output methods are called only from draw_to_term, draw_to_term only from Drawable, Drawable "
+        text="Engine M shows for the whole library that terminal output methods are called only from functions that are behind the gate in the call graph (Drawable methods and what only they call), Drawable "
              "values are built only by ProgressDrawTarget::drawable, and that no path of drawable() offers a drawable for a Hidden target or offers Drawable::Term "
-             "unless Term::is_term() returned true (whatever force_draw and the limiter say): hidden / non-tty targets never reach a terminal write, for every "
-             "call history. Kani shows for hidden and non-tty bars that two symbolic numeric operations (u64 arguments), message/prefix, finish, abandon, println "
+             "unless Term::is_term() returned true (whatever force_draw and the limiter say), and no function branches on is_hidden(): hidden / non-tty targets "
+             "never reach a terminal write and hidden-ness acts only through that gate, for every call history. Kani shows for hidden and non-tty bars that two symbolic numeric operations (u64 arguments), message/prefix, finish, abandon, println "
              "and suspend leave position / length / finished / message / prefix exactly as the reference model of the visible bar (C07) and reach neither a "
              "terminal method nor format_state (panicking stubs).",
         note="Members of a hidden MultiProgress are covered by the gate analysis only; their Kani harnesses (real MultiState::draw) do not finish (tier `deep`). "
@@ -202,7 +205,8 @@ CLAIMS = {
              "by unwrap / expect or by a match whose Err arm panics, on any feasible path: a failing terminal cannot panic under the bar mutex or the MultiProgress "
              "lock (no poisoning). Kani injects a failure into terminal call k in 0..=15 (once or sticky) of one real draw_to_term (Err returned iff reached, "
              "last_line_count untouched, no panic) and into the first draw of tick / set_length / set_tab_width / println / finish / "
-             "finish_and_clear / reset / forced draw on a BarState with pos/len over u64: no panic, logical state as without the failure, the next call paints.",
+             "finish_and_clear / reset / forced draw on a BarState with pos/len over u64: no panic, logical state as without the failure, the next call paints; and "
+             "after a failed draw (last_line_count lagging behind the members' frames, any value) reaping a finished head bar does not panic (saturating row arithmetic).",
         note="Fault index concrete per harness and the limiter admits the failing draw (dropping an io::Error of symbolic existence explodes under CBMC); "
              "MultiState-level and suspend fault harnesses do not finish (tier `deep`); other ways to turn an error into a panic than unwrap/expect/match-arm "
              "(e.g. storing it) are outside the scan.",
